@@ -132,7 +132,7 @@ def cases_for(ctx):
     g, eps = 0.9, 0.1
     sec = []
     if q:
-        sec += [dict(enc="3d-offset", parr=True), dict(scale=1000.0), dict(scale=-1.0), dict(init="seven"), dict(init="ramp"), dict(mbs=2)]
+        sec += [dict(enc="3d-offset", parr=True), dict(enc="2d"), dict(scale=1000.0), dict(scale=-1.0), dict(init="seven"), dict(init="ramp"), dict(mbs=2)]
     else:
         sec += [dict(enc=e, parr=p) for e in ("offset", "2d", "3d-offset") for p in (False, True)] + [dict(enc="plain", parr=True)]
         sec += [dict(scale=s) for s in (1000.0, 0.001, -1.0)]
